@@ -60,7 +60,7 @@ type Shape struct {
 	NAnon  int  // number of function literals inside
 }
 
-const NumKinds = 20
+const NumKinds = 21
 
 // NewShape draws a shape.
 func NewShape(r *Rand, kind int) Shape {
@@ -350,6 +350,17 @@ outer:
 		}
 		fmt.Fprintf(&b, "\t\tout[1] = b%d\n\t}\n}\n", 12+p[2]-1)
 		return b.String()
+	case 20: // call-free, three string constants derived from the literal
+		return fmt.Sprintf(`%s(k int) string {
+	switch {
+	case k < %d:
+		return %q
+	case k > %d:
+		return %q
+	}
+	return "mid"
+}
+`, head, p[0], s.Lit+"-lo", p[0]+p[1], "hi-"+s.Lit)
 	case 19: // calls a package helper whose parameter types differ from package to package
 		return fmt.Sprintf(`%s(n int) int {
 	%s := scaleBy(scaleT(n), %d)
@@ -694,7 +705,7 @@ func GenTreeOpt(seed uint64, maxPkgs, maxFuncs int, allowDep bool) Tree {
 	var shared []Func // functions replicated across packages under the same name
 	nShared := r.Intn(3)
 	for i := 0; i < nShared; i++ {
-		shared = append(shared, Func{Name: fmt.Sprintf("Shared%s%d", funcNames[r.Intn(len(funcNames))], i), Shape: NewShape(r, []int{10, 3, 10, 6, 7, 3, 10, 8}[r.Intn(8)])})
+		shared = append(shared, Func{Name: fmt.Sprintf("Shared%s%d", funcNames[r.Intn(len(funcNames))], i), Shape: NewShape(r, []int{20, 3, 10, 20, 7, 6, 20, 8}[r.Intn(8)])})
 	}
 	for pi := 0; pi < nPkgs; pi++ {
 		pkg := pkgNames[pi]
